@@ -204,6 +204,9 @@ func (w *World) Generate(h *Harness) (res *HarnessResult) {
 	reach := 0
 	for _, r := range rets {
 		if !e.dead(r.st) {
+			if e.paths && !e.feasible(r.st) {
+				continue
+			}
 			reach++
 			e.obls = append(e.obls, &Obligation{Name: h.Name + "#cover:end", Kind: KindCover, Harness: h.Name, Pos: e.posStr(fn.Pos()),
 				Msg: "end of harness reachable (assumptions are not contradictory)", PC: e.coverPC(r.st), Goal: e.C.True(), ctx: e})
@@ -742,6 +745,11 @@ func (o *Obligation) skolemize() {
 		newGoal = append(newGoal, c.Subst(g.Args[0], m))
 		sks = append(sks, fresh)
 	}
+	// candidate instantiation terms: the unknown values (nondet picks of models) the goal talks about
+	cands := instCandidates(c, o.Goal)
+	for _, t := range cands {
+		sks = append(sks, []*smt.Term{t})
+	}
 	if len(sks) == 0 {
 		return
 	}
@@ -769,4 +777,30 @@ func (o *Obligation) skolemize() {
 			}
 		}
 	}
+}
+
+// instCandidates lists 64-bit views of the nondet variables occurring in t (at most 4).
+func instCandidates(c *smt.Ctx, t *smt.Term) []*smt.Term {
+	seen := map[int]bool{}
+	var out []*smt.Term
+	var walk func(t *smt.Term)
+	walk = func(t *smt.Term) {
+		if seen[t.ID] || len(out) >= 4 {
+			return
+		}
+		seen[t.ID] = true
+		if t.Op == smt.OVar && strings.HasPrefix(t.Name, "nondet") && t.Sort.Kind == smt.KBV {
+			if t.Sort.Width == 64 {
+				out = append(out, t)
+			} else if t.Sort.Width < 64 {
+				out = append(out, c.ZeroExt(t, 64))
+			}
+			return
+		}
+		for _, a := range t.Args {
+			walk(a)
+		}
+	}
+	walk(t)
+	return out
 }
